@@ -20,8 +20,9 @@ REPLAY_DIR = os.path.join(VERIF, "replays")
 EVIDENCE_DIR = os.path.join(VERIF, "evidence")
 if os.path.realpath(os.environ.get("VERIF_REPO", "/repo")) != "/repo":
     # runs against a scratch copy (sensitivity / seeded mutants) never overwrite the real evidence
-    REPLAY_DIR = "/dev/shm/simbox-scratch/replays"
-    EVIDENCE_DIR = "/dev/shm/simbox-scratch/evidence"
+    _scratch = os.path.join("/dev/shm/simbox-scratch", os.path.basename(os.path.realpath(os.environ["VERIF_REPO"])))
+    REPLAY_DIR = os.path.join(_scratch, "replays")
+    EVIDENCE_DIR = os.path.join(_scratch, "evidence")
 
 COMPONENTS = {
     "real": [
